@@ -1,7 +1,7 @@
 (* C06 -- Binned metrics equal exhaustive per-threshold counting; optimisation modes agree.
    Statements only; proofs in Proofs/BinnedP.v, models in Models/Binned.v. *)
 From Coq Require Import ZArith List Bool QArith Qcanon Lia Sorted.
-From TE Require Import Base.Val Base.Nd Base.Xq Algebra.Additive Models.Binned Proofs.BinnedP.
+From TE Require Import Base.Val Base.Nd Base.Xq Algebra.Additive Models.Binned Proofs.BinnedP Proofs.BinnedFloorP.
 Import ListNotations.
 Open Scope Z_scope.
 
@@ -81,21 +81,42 @@ Theorem binned_auroc_floor_per_class_multiclass_refuted :
   (exists C T xs, mc_ok C xs = true /\ asc T /\ length (mc_binned_auroc_algo C T xs) = length (mc_binned_auroc_spec C T xs)
                   /\ mc_binned_auroc_algo C T xs <> mc_binned_auroc_spec C T xs).
 Proof. exact mc_binned_auroc_refuted. Qed.
-(* AUPRC -- PARTIAL.  Proved: the three count vectors, hence the binned PR curve and the binned AUPRC, of the
-   scores equal those of the floored scores (which all sit ON thresholds).  Not proved: that on floored scores
-   the riemann sum over threshold indices equals [auprc_exact] (sum over the DISTINCT floored scores of
-   recall increment x precision; empty buckets and duplicated thresholds add zero increments).  That last
-   step is tied on every run (exhaustive <= 4 samples; random per task / per class) against [auprc_exact]
-   and against the real exact binary_auprc. *)
+(* AUPRC (proved in full): under the same hypotheses the binned AUPRC -- precision with nan_to_num(.,1), recall,
+   the appended (1, 0) point, the riemann integral, nan_to_num(., 0) -- equals the exact AUPRC of the floored
+   scores: the sum over the DISTINCT floored scores of recall increment x precision, 0 when there are no
+   positives.  Thresholds with an empty bucket and all but the last copy of a duplicated threshold are
+   repeated curve points with zero recall increment.  (The counts themselves depend on the floors only.) *)
 Theorem binned_counts_depend_on_floors_only : forall (T : list Z) (xs : list sample),
   asc T -> T <> [] -> (forall x, In x xs -> hd 0 T <= fst x) ->
   bin_tp T (floored T xs) = bin_tp T xs /\ bin_fp T (floored T xs) = bin_fp T xs /\ bin_fn T (floored T xs) = bin_fn T xs.
 Proof. exact binned_counts_floor_invariant. Qed.
-Theorem binned_auprc_floor_partial : forall (T : list Z) (xs : list sample),
+Theorem binned_auprc_floor : forall (T : list Z) (xs : list sample),
   asc T -> T <> [] -> (forall x, In x xs -> hd 0 T <= fst x) ->
-  auprc_curve (map zq (bin_tp T xs)) (map zq (bin_fp T xs)) (map zq (bin_fn T xs))
-  = auprc_curve (map zq (bin_tp T (floored T xs))) (map zq (bin_fp T (floored T xs))) (map zq (bin_fn T (floored T xs))).
-Proof. exact binned_auprc_floor_invariant. Qed.
+  auprc_curve (map zq (bin_tp T xs)) (map zq (bin_fp T xs)) (map zq (bin_fn T xs)) = Fin (auprc_exact (floored T xs)).
+Proof. exact binned_auprc_floor_thm. Qed.
+(* per task (BinaryBinnedAUPRC), per class (MulticlassBinnedAUPRC: one-vs-rest) and per label
+   (MultilabelBinnedAUPRC), either optimisation mode, with the stated average *)
+Theorem binned_auprc_floor_per_task : forall (c : bcfg) (rows : list (list sample)),
+  asc (thresholds c) -> thresholds c <> [] ->
+  (forall r x, In r rows -> In x r -> hd 0 (thresholds c) <= fst x) ->
+  map2 (fun tf fn => auprc_curve (fst tf) (snd tf) fn)
+       (combine (nrows (st_tp (bauprc_beta c rows))) (nrows (st_fp (bauprc_beta c rows)))) (nrows (st_fn (bauprc_beta c rows)))
+  = map (fun r => Fin (auprc_exact (floored (thresholds c) r))) rows.
+Proof. exact bauprc_rows_floor. Qed.
+Theorem binned_auprc_floor_per_class_multiclass : forall (c : bcfg) (xs : list mcsample),
+  asc (thresholds c) -> thresholds c <> [] -> mc_ok (bC c) xs = true ->
+  (forall k x, (k < bC c)%nat -> In x xs -> hd 0 (thresholds c) <= nth k (fst x) 0) ->
+  m_gamma_auprc c (mc_beta c xs)
+  = let a := map (fun k => Fin (auprc_exact (floored (thresholds c) (ovr k xs)))) (seq 0 (bC c)) in
+    if bmacro c then AMacro (xmean a) else AEach a.
+Proof. exact mc_auprc_floor. Qed.
+Theorem binned_auprc_floor_per_label_multilabel : forall (c : bcfg) (xs : list mlsample),
+  asc (thresholds c) -> thresholds c <> [] -> ml_ok (bC c) xs = true ->
+  (forall k x, (k < bC c)%nat -> In x xs -> hd 0 (thresholds c) <= nth k (fst x) 0) ->
+  m_gamma_auprc c (ml_beta c xs)
+  = let a := map (fun k => Fin (auprc_exact (floored (thresholds c) (label_col k xs)))) (seq 0 (bC c)) in
+    if bmacro c then AMacro (xmean a) else AEach a.
+Proof. exact ml_auprc_floor. Qed.
 
 (* 4. the AddSpec instances' [avalid] (which carries a computed shape condition so that the generic additive
    algebra applies) is exactly the input check: the count tensors always have the registered states' shapes *)
@@ -166,7 +187,10 @@ Print Assumptions binned_auroc_floor.
 Print Assumptions binned_auroc_floor_per_task.
 Print Assumptions binned_auroc_floor_per_class_multiclass_refuted.
 Print Assumptions binned_counts_depend_on_floors_only.
-Print Assumptions binned_auprc_floor_partial.
+Print Assumptions binned_auprc_floor.
+Print Assumptions binned_auprc_floor_per_task.
+Print Assumptions binned_auprc_floor_per_class_multiclass.
+Print Assumptions binned_auprc_floor_per_label_multilabel.
 Print Assumptions binned_valid_binary_curve.
 Print Assumptions binned_valid_binary_auprc.
 Print Assumptions binned_valid_multiclass.
